@@ -114,6 +114,15 @@ class Server:
         self.send({"jsonrpc": "2.0", "id": 0, "method": "initialize", "params": params})
         r = self.recv()
         self.send({"jsonrpc": "2.0", "method": "initialized", "params": {}})
+        # Barrier: the server indexes the workspace *after* answering `initialize` and before it enters its message loop.  Without
+        # a round trip here, a disk fault injected right after initialisation would race against that indexing (which files the index
+        # holds would depend on timing, not on the seed).  The first answered request proves the index is complete.
+        rid = self.next_id
+        self.next_id += 1
+        self.send({"jsonrpc": "2.0", "id": rid, "method": "workspace/symbol", "params": {"query": "ucgsim-barrier-no-such-symbol"}})
+        b = self.recv()
+        if b.get("id") != rid:
+            raise NoReply("unexpected message instead of the barrier reply: %r" % (b,))
         return r
 
     def notify(self, method, params):
